@@ -22,3 +22,6 @@ def check(ctx):
     pC06.compiled_mode_rules(ctx, "C02.h")   # every configured pattern reaches the compiler, unmodified
     from . import casts
     casts.analyze(ctx, {"C17.a"})   # ids of states, groups and classes are injective
+    # the property is observed on scanners obtained through build(): the cache must hand back the configuration's own compilation
+    from .common import cache_foundation
+    cache_foundation(ctx)
